@@ -146,7 +146,7 @@ Section SpecFacts.
   Proof.
     intros id path rest fields fields' v r Hp H. cbn [frontier] in *.
     destruct (path_last path) as [nm|]; [|discriminate].
-    destruct (peel v) as [| | | | | | | |n vals|n args| |]; try discriminate;
+    destruct (peel v) as [| | | | | | | |n vals|n args| | |]; try discriminate;
       try (exists r; split; [exact H|apply Permutation_refl]).
     destruct (String.eqb n nm); [|exists r; split; [exact H|apply Permutation_refl]].
     replace (forallb _ vals) with
@@ -179,7 +179,7 @@ Section SpecFacts.
   Proof.
     intros id path rest fields fp v Hin. cbn [frontier].
     destruct (path_last path) as [nm|]; [|reflexivity].
-    destruct (peel v) as [| | | | | | | |n vals|n args| |]; try reflexivity.
+    destruct (peel v) as [| | | | | | | |n vals|n args| | |]; try reflexivity.
     destruct (String.eqb n nm); [|reflexivity].
     replace (forallb (fun fv => existsb _ (fields ++ [fp])) vals) with
       (forallb (fun fv => existsb (fun fp => match root_field_name (fst fp) with
